@@ -8,6 +8,7 @@ import (
 	"flag"
 	"fmt"
 	"os"
+	"os/exec"
 	"path/filepath"
 	"runtime"
 	"sort"
@@ -122,12 +123,96 @@ func (c *Ctx) Violation(key, detail string, cas any, size int) {
 	v := c.viols[key]
 	if v == nil {
 		c.viols[key] = &Viol{Key: key, Detail: detail, Case: cas, Count: 1, Size: size}
+		journalViolation(c.viols[key])
 		return
 	}
 	v.Count++
 	if size < v.Size {
 		v.Detail, v.Case, v.Size = detail, cas, size
 	}
+}
+
+// journalViolation appends the first case of a new violation class to the journal the supervising
+// process reads if this worker dies before it can report (a fatal runtime error in the code under
+// test - out of memory, stack overflow, a corrupted slice header - cannot be recovered in-process).
+func journalViolation(v *Viol) {
+	path := os.Getenv("VERIF_JOURNAL")
+	if path == "" {
+		return
+	}
+	data, err := json.Marshal(v)
+	if err != nil {
+		data, _ = json.Marshal(&Viol{Key: v.Key, Detail: v.Detail, Count: 1, Size: v.Size})
+	}
+	if f, err := os.OpenFile(path, os.O_APPEND|os.O_CREATE|os.O_WRONLY, 0o644); err == nil {
+		f.Write(append(data, '\n'))
+		f.Close()
+	}
+	if os.Getenv("VERIF_TEST_DIE_AFTER_FIRST_VIOLATION") != "" {
+		os.Exit(3) // self-test of the supervising process: die as a fatal runtime error would
+	}
+}
+
+// supervise runs the check in a worker process. A worker that ends normally has said everything
+// itself. A worker that dies is a verdict only if it had already recorded a violation; otherwise the
+// run is an infrastructure failure (exit 2), never a pass.
+func supervise(prop, tier string) int {
+	exe, err := os.Executable()
+	if err != nil {
+		return -1
+	}
+	journal := filepath.Join(verifRoot, ".bin", fmt.Sprintf("journal-%s-%d.jsonl", prop, os.Getpid()))
+	os.Remove(journal)
+	defer os.Remove(journal)
+	cmd := exec.Command(exe, os.Args[1:]...)
+	cmd.Env = append(os.Environ(), "VERIF_WORKER=1", "VERIF_JOURNAL="+journal)
+	cmd.Stdout, cmd.Stderr = os.Stdout, os.Stderr
+	start := time.Now()
+	err = cmd.Run()
+	code := 0
+	if err != nil {
+		code = -1
+		if ee, ok := err.(*exec.ExitError); ok {
+			code = ee.ExitCode()
+		}
+	}
+	if code == 0 || code == 1 {
+		return code
+	}
+	// the worker died (or gave up without a verdict): report what it had found before
+	fs := loadFindings()
+	nviol := 0
+	if data, err := os.ReadFile(journal); err == nil {
+		os.MkdirAll(filepath.Join(verifRoot, "replays"), 0o755)
+		for _, line := range strings.Split(string(data), "\n") {
+			var v Viol
+			if json.Unmarshal([]byte(line), &v) != nil || v.Key == "" || matchFinding(fs, prop, v.Key) != nil {
+				continue
+			}
+			nviol++
+			h := sha1.Sum([]byte(v.Key))
+			path := filepath.Join(verifRoot, "replays", fmt.Sprintf("%s-%x.json", prop, h[:6]))
+			rep := map[string]any{"property": prop, "key": v.Key, "detail": v.Detail, "case": v.Case, "count": v.Count, "tier": tier, "note": "recorded before the worker process died"}
+			out, _ := json.MarshalIndent(rep, "", " ")
+			os.WriteFile(path, append(out, '\n'), 0o644)
+			if nviol <= 25 {
+				fmt.Printf("VIOLATION property=%s replay=%s\n  key=%s (first case; the worker process died before the search finished)\n  %s\n", prop, path, v.Key, oneLine(v.Detail, 600))
+			}
+		}
+	}
+	fmt.Printf("INFRASTRUCTURE: the worker process ended abnormally (exit code %d) after %.1fs; %d violation class(es) had been recorded\n", code, time.Since(start).Seconds(), nviol)
+	if nviol > 0 {
+		c := &Ctx{Prop: prop, Tier: tier, Start: start, Bound: map[string]any{}, Extra: map[string]any{"worker_died": true}, Rule: "the worker process died; only the violations journalled before that are reported"}
+		c.Samples = []any{"(worker died)"}
+		// what is known for certain: the journalled cases were executed against the implementation
+		c.States.Store(int64(nviol))
+		c.Transitions.Store(int64(nviol))
+		c.Traces.Store(int64(nviol))
+		c.Evals.Store(int64(nviol))
+		c.writeEvidence(nviol, 0)
+		return 1
+	}
+	return 2
 }
 
 func (c *Ctx) NumViolKeys() int {
@@ -359,6 +444,12 @@ func main() {
 	}
 	if t := os.Getenv("VERIF_TIER"); t != "" && (t == "quick" || t == "thorough") && !flagSet("tier") {
 		*tier = t
+	}
+	if os.Getenv("VERIF_WORKER") == "" && *shard == "" && *replay == "" {
+		if code := supervise(*prop, *tier); code >= 0 {
+			os.Exit(code)
+		}
+		// could not start a worker: run in-process
 	}
 	seed, _ := strconv.ParseInt(os.Getenv("VERIF_SEED"), 10, 64)
 	c := &Ctx{Prop: *prop, Tier: *tier, Seed: seed, Start: time.Now(), viols: map[string]*Viol{}, Bound: map[string]any{}, Extra: map[string]any{}, Of: 1}
